@@ -4,6 +4,7 @@
 // the unlimited iteration count), setBasis with EVERY valid status assignment, readBasisFile, and
 // modifications that keep the basis; plus FORCEBASIC exact solves.
 #include "vx_history.hpp"
+#include "vx_planted.hpp"
 using namespace vx;
 
 static ConfigSpace g_cs;
@@ -91,13 +92,33 @@ static std::string warm_start_new_object(SoPlex& spx, const TinyLP& t, const Cla
    return "";
 }
 
+static uint64_t run_lp_cl(const TinyLP& t, const XLP& x, const Classification& cl, const std::string& caseName, const std::string& sigTag, const ConfigSpace::Cfg& cfg, Ctx& c);
+
 static uint64_t run_lp(const TinyLP& t, const ConfigSpace::Cfg& cfg, Ctx& c)
 {
    XLP x = t.exact();
    Classification cl = classify(x, false, true);
+   return run_lp_cl(t, x, cl, t.str(), "", cfg, c);
+}
+
+// planted medium-size LP (vx_planted.hpp): the bases are the ones solves produce - the final one and the one each iteration-limited solve stops at
+// (limits 0, 1, 2, 3, 5, 8, 13, ... below the unlimited count; dozens of distinct intermediate bases per LP) - each checked for validity, exact
+// regularity (determinant over the rationals), consistency of the queries, set/get round trip and as warm start in the same and in a new object;
+// "setBasis with every regular basis" of the tiny families is not possible here (no enumeration) and is skipped
+static uint64_t run_planted4(const PlantedSpec& sp, const ConfigSpace::Cfg& cfg, Ctx& c)
+{
+   PlantedLP P = planted(sp);
+   XLP x = P.lp.exact();
+   c.count(std::string("planted_class.") + sp.kindName());
+   return run_lp_cl(P.lp, x, P.cl, sp.str(), "+planted", cfg, c);
+}
+
+static uint64_t run_lp_cl(const TinyLP& t, const XLP& x, const Classification& cl, const std::string& caseName, const std::string& sigTag, const ConfigSpace::Cfg& cfg, Ctx& c)
+{
+   const bool medium = !sigTag.empty();
    Model mo = Model::from(t);
-   std::string cs = t.str() + "#" + g_cs.str(cfg);
-   std::string cfgs = g_cs.str(cfg);
+   std::string cs = caseName + "#" + g_cs.str(cfg);
+   std::string cfgs = g_cs.str(cfg) + sigTag;
    auto viol = [&](const std::string & res, const std::string & where)
    {
       size_t bar = res.find('|');
@@ -150,8 +171,10 @@ static uint64_t run_lp(const TinyLP& t, const ConfigSpace::Cfg& cfg, Ctx& c)
       else if(st == 1) c.violation("optimal-without-basis@" + cfgs, cs, "");
    }
    // --- iteration-limited solves: every limit below the unlimited iteration count
-   for(int lim = 0; lim < N && lim < 12; ++lim)
+   for(int lim = 0, prev = 1; lim < N && (medium ? lim < 400 : lim < 12); )
    {
+      struct Next { int& l; int& p; bool med; ~Next() { if(!med || l < 3) ++l; else { int n = l + p; p = l; l = n; } } } next{lim, prev, medium};   // medium: 0,1,2,3,5,8,13,...
+      if(medium && lim == 3) prev = 2;
       set_sub(100 + lim);
       SoPlex spx;
       quiet(spx);
@@ -171,7 +194,7 @@ static uint64_t run_lp(const TinyLP& t, const ConfigSpace::Cfg& cfg, Ctx& c)
       if(!j.empty()) viol("resume in the same object: " + j, "after-iterlimit-solve:" + std::to_string(st));
    }
    if(c.wantSample() && N >= 2)
-      c.sample("{\"lp\":" + t.json() + ",\"config\":" + jstr(cfgs) + ",\"iterations_unlimited\":" + std::to_string(N) + ",\"regular_bases\":" + std::to_string(cl.regular.size()) + ",\"exact_class\":" + jstr(cl.name()) + "}");
+      c.sample("{\"lp\":" + (medium ? jstr(caseName) : t.json()) + ",\"config\":" + jstr(cfgs) + ",\"iterations_unlimited\":" + std::to_string(N) + ",\"regular_bases\":" + std::to_string(cl.regular.size()) + ",\"exact_class\":" + jstr(cl.name()) + "}");
    // --- B: setBasis with every valid status assignment (regular bases x nonbasic placements), LP inside / outside the solver
    int n = t.n, m = t.m;
    for(int outside = 0; outside <= 1; ++outside)
@@ -353,8 +376,14 @@ int main(int argc, char** argv)
       p += 9;
       std::string cs = doc.substr(p, doc.find('"', p) - p);
       size_t h = cs.find('#');
-      TinyLP t = TinyLP::parse(cs.substr(0, h));
       mallopt(M_PERTURB, 85);
+      PlantedSpec psp;
+      if(cs.compare(0, 2, "P:") == 0 && PlantedSpec::parse(cs.substr(0, h), psp))
+      {
+         ConfigSpace::Cfg cfgp = g_cs.parse(cs.substr(h + 1));
+         return replay_case([&](Ctx & c) { run_planted4(psp, cfgp, c); });
+      }
+      TinyLP t = TinyLP::parse(cs.substr(0, h));
       if(h == std::string::npos) return replay_case([&](Ctx & c) { run_forcebasic(t, c); });
       if(cs.compare(h + 1, 3, "fb:") == 0) { int v = atoi(cs.c_str() + h + 4); return replay_case([&](Ctx & c) { run_forcebasic(t, c, v); }); }
       ConfigSpace::Cfg cfg = g_cs.parse(cs.substr(h + 1));
@@ -382,6 +411,19 @@ int main(int argc, char** argv)
       return run_lp(t, cfgs[idx % NC], c);
    }, [&](uint64_t idx, uint64_t) { TinyLP t; lpAt(idx / NC, t); return t.str() + "#" + g_cs.str(cfgs[idx % NC]); }, o,
    [&](uint64_t idx, uint64_t sub) { return "@" + std::string(sub >= 5000 ? "after-modification" : sub >= 1000 ? "setBasis" : sub >= 100 ? "iterlimit-solve" : "solve") + "|" + g_cs.str(cfgs[idx % NC]); });
+   {
+      static PlantedGrid pg;
+      pg.sizes = {{6, 5}, {10, 8}, {8, 12}, {16, 12}, {12, 20}};
+      pg.densities = {40};
+      pg.seeds = thorough ? 8 : 1;
+      pg.magnitudes = 2;
+      rep.phase("planted LPs up to 16x12 / 12x20 x 7 parameter vectors: bases of solves and iteration-limited solves, modifications", pg.size() * NC, [&](uint64_t idx, int, Ctx & c) -> uint64_t
+      {
+         return run_planted4(pg.at(idx / NC), cfgs[idx % NC], c);
+      }, [&](uint64_t idx, uint64_t) { return pg.at(idx / NC).str() + "#" + g_cs.str(cfgs[idx % NC]); }, o,
+      [&](uint64_t idx, uint64_t sub) { return "@" + std::string(sub >= 5000 ? "after-modification" : sub >= 1000 ? "setBasis" : sub >= 100 ? "iterlimit-solve" : "solve") + "|" + g_cs.str(cfgs[idx % NC]) + "+planted"; });
+      rep.extra["planted_grid"] = jstr("sizes (n x m) 6x5 10x8 8x12 16x12 12x20, density 40 %, degenerate 0/1, min/max, kinds OPT/INF/UNB, plain and power-of-two rescaled, seeds 0.." + std::to_string(pg.seeds - 1));
+   }
    uint64_t stride2 = thorough ? 2 : 7;
    rep.phase("FORCEBASIC exact solves x {eqtrans} x {simplifier}", fs.total / stride2, [&](uint64_t idx, int, Ctx & c) -> uint64_t
    {
